@@ -8,9 +8,11 @@
     f's behaviour at its k-th invocation is given by a table [beh k]; a returned Deferred is fired
     later by the test program ([Fire]).  [with_count] wraps f in the skipped-intervals counter of
     LoopingCall.withCount.  The model follows the code literally, including start() on a stopped
-    loop whose last invocation's Deferred is still pending (see restart_refuted in Proofs.v): the
-    clock may then hold several DelayedCalls of the same loop, so it is modelled as the sorted list
-    of C09. *)
+    loop whose last invocation is not over (its Deferred is still pending, or start() is called from
+    inside f after stop(); see the ..._refuted lemmas in Proofs.v): the clock may then hold several
+    DelayedCalls of the same loop, so it is modelled as the sorted list of C09.
+    One repaired behaviour is modelled (fixes/C10-start-resets-count.patch): start() resets
+    _realLastTime, so that the counting of withCount starts afresh with every start(). *)
 From Coq Require Import List Arith ZArith Bool.
 Import ListNotations.
 Local Open Scope Z_scope.
@@ -21,7 +23,8 @@ Inductive fbeh :=
 | FDefer          (* returns an unfired Deferred *)
 | FStopRet        (* calls self.stop() and returns *)
 | FStopDefer      (* calls self.stop() and returns an unfired Deferred *)
-| FResetRet.      (* calls self.reset() and returns *)
+| FResetRet       (* calls self.reset() and returns *)
+| FRestartRet.    (* calls self.stop(); self.start(self.interval, now=False) and returns *)
 
 Inductive op :=
 | Start (interval : Z) (nowflag : bool)
@@ -60,7 +63,7 @@ Record st := mkSt {
   dfired : list nat;             (* generations whose start() Deferred has fired *)
   realLast : option Z;           (* _realLastTime *)
   ncalls : nat;
-  wasreset : bool;               (* ghost: reset() or a second start() happened *)
+  wasreset : bool;               (* ghost: reset() moved starttime since the last start() *)
   log : list ev
 }.
 
@@ -156,6 +159,17 @@ Definition do_reset (s : st) : st :=
 Definition interval_of (s : st) (t : Z) : Z := Z.quot (t - start s) (interval s).
 Definition lastidx (s : st) : Z := lastidx_at (start s) (interval s) (runAtStart s) (realLast s).
 
+(** start(): the assignments up to and including self._realLastTime = None (repaired behaviour) *)
+Definition begin_loop (i : Z) (nowflag : bool) (s : st) : st :=
+  mkSt (now s) true (now s) i nowflag true (pend s) (nextid s) (call s) (waiting s) (S (dgen s))
+       (Some (dgen s)) (dfired s) None (ncalls s) false
+       (EEpoch (lastidx_at (now s) i nowflag None) :: log s).
+
+(** start(i, now=False) *)
+Definition start_later (i : Z) (s : st) : st :=
+  if running s || (i <? 0) then emit EAssert s          (* AssertionError / ValueError *)
+  else let s1 := begin_loop i false s in schedule (now s1) s1.
+
 Definition has_waiting (s : st) : bool := match waiting s with [] => false | _ => true end.
 
 Section Loop.
@@ -175,6 +189,7 @@ Section Loop.
     | FStopRet => cb (do_stop s)
     | FStopDefer => let s1 := do_stop s in set_waiting (waiting s1 ++ [dgen s1]) s1
     | FResetRet => cb (do_reset s)
+    | FRestartRet => cb (start_later (interval s) (do_stop s))
     end.
 
   (** LoopingCall.__call__ (self.call = None; maybeDeferred(self.f); addCallback(cb); addErrback(eb)) *)
@@ -209,10 +224,7 @@ Section Loop.
     | Start i nowflag =>
         if running s || (i <? 0) then emit EAssert s        (* AssertionError / ValueError *)
         else
-          let s1 := mkSt (now s) true (now s) i nowflag true (pend s) (nextid s) (call s)
-                         (waiting s) (S (dgen s)) (Some (dgen s)) (dfired s) (realLast s) (ncalls s)
-                         (wasreset s || started s)
-                         (EEpoch (lastidx_at (now s) i nowflag (realLast s)) :: log s) in
+          let s1 := begin_loop i nowflag s in
           if nowflag then invoke s1 else schedule (now s1) s1
     | Advance a => fire_due (set_now (now s + a) s)
     | Fire ok =>
